@@ -16,7 +16,9 @@ cargo test --workspace --no-fail-fast --offline 2>&1 | grep -E "^test .*(FAILED|
 echo "== suite with patch:"; cat /tmp/seed_${ID}_suite.log
 # bring the scratch worktree up to /repo's HEAD (repairs committed after the worktree was created), keeping the seeded change
 BASE=$(git -C $W rev-parse HEAD); TIP=$(git -C /repo rev-parse HEAD)
-if [ "$BASE" != "$TIP" ]; then git -C /repo diff $BASE $TIP | git -C $W apply && echo "== worktree brought up to $TIP" || echo "== WARNING: could not apply /repo's newer commits to the worktree"; fi
+if [ "$BASE" != "$TIP" ]; then git -C /repo diff $BASE $TIP > /tmp/seed_${ID}_uptodate.diff
+  if git -C $W apply -R --check /tmp/seed_${ID}_uptodate.diff 2>/dev/null; then echo "== worktree already carries /repo's newer commits";
+  elif git -C $W apply /tmp/seed_${ID}_uptodate.diff; then echo "== worktree brought up to $TIP"; else echo "== WARNING: could not apply /repo's newer commits to the worktree"; fi; fi
 cd /verif
 for P in $PROPS; do
   VERIF_REPO=$W ./vcheck check $P > /tmp/seed_${ID}_check_$P.log 2>&1; echo "== vcheck $P exit $? : $(grep -E 'VIOLATION|^OK' /tmp/seed_${ID}_check_$P.log | head -2)"
